@@ -19,6 +19,12 @@
 (*         matched item), "pred"/"pred0" a prediction nothing annotated    *)
 (*         overlaps (0: it has no geometry), "ann"/"ann0" an annotation    *)
 (*         nothing predicted overlaps.  Absent m = "both".                 *)
+(*         and optionally f: sequence of C fine codes -- the score of      *)
+(*         class k is s[k]/u PLUS a tiny offset: 0 none, 2: +4e-7,         *)
+(*         3: +8e-7 (distinct float32 values: really larger, NOT ties),    *)
+(*         1: +1e-9 or the next double (below float32 resolution: the      *)
+(*         encoder's float32 vector cannot tell it from 0 -- either reading*)
+(*         is accepted).  Only on non-zero ticks.  Absent f = all 0.       *)
 (*   clips sequence of sequences of item indices (cc/cml: one item each;   *)
 (*         sec/sed: the sound events of each clip, possibly none)          *)
 (*   extras sequence of [pos, side]: clips that are in ONE input only      *)
@@ -192,10 +198,23 @@ MetricOf(m) == IF MetricOfName(m.name) # "unknown" THEN MetricOfName(m.name) ELS
 MatchKind(it) == IF "m" \in DOMAIN it THEN it.m ELSE "both"
 PredOnly(it)  == MatchKind(it) \in {"pred", "pred0"}
 AnnOnly(it)   == MatchKind(it) \in {"ann", "ann0"}
-Eff(it) == IF PredOnly(it) THEN [t |-> 0, y |-> it.y, s |-> it.s]
-           ELSE IF AnnOnly(it) THEN [t |-> it.t, y |-> it.y, s |-> [k \in DOMAIN it.s |-> 0]]
-           ELSE [t |-> it.t, y |-> it.y, s |-> it.s]
+FineOf(it) == IF "f" \in DOMAIN it THEN it.f ELSE [k \in DOMAIN it.s |-> 0]
+Eff(it) == IF PredOnly(it) THEN [t |-> 0, y |-> it.y, s |-> it.s, f |-> FineOf(it)]
+           ELSE IF AnnOnly(it) THEN [t |-> it.t, y |-> it.y, s |-> [k \in DOMAIN it.s |-> 0], f |-> [k \in DOMAIN it.s |-> 0]]
+           ELSE [t |-> it.t, y |-> it.y, s |-> it.s, f |-> FineOf(it)]
 EffSeq(its) == [i \in DOMAIN its |-> Eff(its[i])]
+
+\* Near-equal scores.  Every definition above depends on the scores only through their ORDER (argmax, top-3, the
+\* thresholds of average precision, the side of 1/2) and through sums of ticks -- except true-class probability.
+\* A score s/u + offset(f) is therefore replaced by the integer key s*FF + f on the unit u*FF: comparisons between
+\* keys, and between a key and the 'none' mass u*FF - sum of keys, come out as for the real numbers (offsets are
+\* positive and tiny, at most 3 per class, 3*(C+1) < FF).  Code 1 is read both ways ("tie": as 0, "above": as 1).
+FF == 16
+HasFine(its) == \E i \in DOMAIN its : \E k \in DOMAIN its[i].s : FineOf(its[i])[k] # 0
+FineKey(f, soft) == IF f = 1 /\ soft = "tie" THEN 0 ELSE f
+KeySeq(its, soft) ==
+    [i \in DOMAIN its |-> [t |-> its[i].t, y |-> its[i].y,
+                            s |-> [k \in DOMAIN its[i].s |-> its[i].s[k] * FF + FineKey(FineOf(its[i])[k], soft)]]]
 
 \* what metric `mid` may be worth over the items `its` of one unit (evaluation: all; clip: its items; match: one)
 AllowedOn(mid, task, its, C, u) ==
@@ -213,7 +232,11 @@ AllowedOn(mid, task, its, C, u) ==
           [] mid = "jac"  -> IF Len(its) = 1 THEN Vals(JaccardSet(its[1], u)) ELSE NoDemand
           [] OTHER -> NoDemand
 
-Allowed(mid, task, its, C, u) == AllowedOn(mid, task, EffSeq(its), C, u)
+Allowed(mid, task, its, C, u) ==
+    LET e == EffSeq(its) IN
+    IF ~HasFine(e) THEN AllowedOn(mid, task, e, C, u)
+    ELSE IF mid = "tcp" THEN NoDemand          \* its value is a score plus an offset that is not on the lattice
+    ELSE Join(AllowedOn(mid, task, KeySeq(e, "above"), C, u * FF), AllowedOn(mid, task, KeySeq(e, "tie"), C, u * FF))
 
 (* ---------------- the tables of the four task modules (Impl) ---------------- *)
 T_bacc == "soundevent_metrics:balancedAccuracy"
